@@ -610,4 +610,34 @@ example : (3 : Rat) * 3 = [1, 6, 2].sum ∧
     (7 : Rat) * (3 - 1) = ([1, 6, 2].map (fun x => (x - 3) ^ 2)).sum := by
   norm_num
 
+
+/-- "merging per-dataset files keeps, per cluster, the row of the dataset with
+the most cells" - the exact tie rule of `merge_precompute_files`: the merge
+starts from the FIRST file (sorted-path order) with the largest total number
+of cells; the other files are then visited in order and replace a row only if
+they hold STRICTLY more cells.  So with `seq` = the start file followed by the
+other files in order, output row `r` is row `r` of the first file of `seq`
+that attains the largest `n_cells[r]`. -/
+theorem merge_tie_rule (nC : Nat) (files : List Buffer) (hne : files ≠ [])
+    (hlen : ∀ f ∈ files, f.length = nC) :
+    ∃ (k : Nat) (start out : Buffer), files[k]? = some start ∧
+      (∀ f ∈ files, totalCells f ≤ totalCells start) ∧
+      (∀ (i : Nat) (fi : Buffer), i < k → files[i]? = some fi →
+        totalCells fi < totalCells start) ∧
+      mergeMax files = .ok out ∧
+      ∀ r : Nat, r < nC → ∃ (p : Nat) (fp : Buffer) (row : Row),
+        (start :: files.eraseIdx k)[p]? = some fp ∧ fp[r]? = some row ∧ out[r]? = some row ∧
+        ∀ (q : Nat) (fq : Buffer) (row' : Row), (start :: files.eraseIdx k)[q]? = some fq →
+          fq[r]? = some row' → row'.n ≤ row.n ∧ (q < p → row'.n < row.n) :=
+  mergeMax_tie_rule nC files hne hlen
+
+/- totals 8, 9, 9: the merge starts from the second file (first of the two with 9); in row 2
+the start file's row wins the tie 2 = 2 against the first file; in row 1 the third file (9)
+replaces the first file's 5, which had replaced the start's 4 -/
+example : mergeMax [[⟨1, []⟩, ⟨5, []⟩, ⟨2, []⟩], [⟨3, []⟩, ⟨4, []⟩, ⟨2, [GStat.zero]⟩],
+      [⟨0, []⟩, ⟨9, []⟩, ⟨0, []⟩]]
+    = .ok [⟨3, []⟩, ⟨9, []⟩, ⟨2, [GStat.zero]⟩] ∧
+    mostIdx [[⟨3, []⟩, ⟨4, []⟩, ⟨2, [GStat.zero]⟩], [⟨0, []⟩, ⟨9, []⟩, ⟨0, []⟩]] 1 0 8 = 1 := by
+  decide +kernel
+
 end CTM.C09
